@@ -1060,10 +1060,12 @@ pub fn object_define_property(
                 PropertyKey::Symbol(_) => None,
             };
 
-            if let Some(index) = maybe_index {
+            // (an index too far out to materialise the gap stays an ordinary property, as for
+            // plain assignment)
+            if let Some(index) = maybe_index.filter(|i| *i < crate::value::MAX_DENSE_ARRAY_LENGTH) {
                 // Extend array if needed
-                while elements.len() <= index {
-                    elements.push(JsValue::Undefined);
+                if elements.len() <= index {
+                    elements.resize(index + 1, JsValue::Undefined);
                 }
                 // Set the value at this index
                 if let Some(elem) = elements.get_mut(index) {
